@@ -87,7 +87,8 @@ pub fn call(f: &str, args: &[Vec<QR>]) -> Result<Vec<QR>, String> {
         "to_upper" => strings_map(a0, |s| Ok(Some(V::Str(s.to_uppercase())))),
         "to_lower" => strings_map(a0, |s| Ok(Some(V::Str(s.to_lowercase())))),
         "url_decode" => strings_map(a0, |s| Ok(percent_decode(s).map(V::Str))),
-        "json_parse" => strings_map(a0, |s| match serde_json::from_str::<serde_json::Value>(s) {
+        // as loading the text as a document does: the integer spelling `-0` is the integer 0 (`-0.0` stays a float)
+        "json_parse" => strings_map(a0, |s| match serde_json::from_str::<serde_json::Value>(s).and_then(|_| serde_json::from_str::<serde_json::Value>(&minus_zero_int(s))) {
             Ok(j) => Ok(Some(V::from_json_value(&j))),
             Err(e) => Err(format!("not JSON: {}", e)),
         }),
@@ -216,4 +217,34 @@ pub fn call(f: &str, args: &[Vec<QR>]) -> Result<Vec<QR>, String> {
         }
         _ => Err(format!("function {} not modelled", f)),
     }
+}
+
+/// `-0` outside strings, not followed by a fraction or exponent, rewritten to `0`
+fn minus_zero_int(t: &str) -> String {
+    let cs: Vec<char> = t.chars().collect();
+    let mut out = String::with_capacity(t.len());
+    let (mut in_str, mut esc) = (false, false);
+    let mut k = 0;
+    while k < cs.len() {
+        let c = cs[k];
+        if in_str {
+            out.push(c);
+            if esc {
+                esc = false;
+            } else if c == '\\' {
+                esc = true;
+            } else if c == '"' {
+                in_str = false;
+            }
+        } else if c == '"' {
+            in_str = true;
+            out.push(c);
+        } else if c == '-' && cs.get(k + 1) == Some(&'0') && !cs.get(k + 2).map_or(false, |n| n.is_ascii_digit() || matches!(n, '.' | 'e' | 'E')) {
+            // drop the sign
+        } else {
+            out.push(c);
+        }
+        k += 1;
+    }
+    out
 }
